@@ -330,6 +330,10 @@ static char *_parsestr(qlisttbl_t *tbl, const char *str) {
     }
 
     bool loop;
+    // self or mutually referential variables must neither expand forever
+    // nor blow up the value (each round may double it)
+    int maxexpand = 100;
+    const size_t maxsize = 1024 * 1024;
     char *value = strdup(str);
     do {
         loop = false;
@@ -418,7 +422,7 @@ static char *_parsestr(qlisttbl_t *tbl, const char *str) {
             loop = true;
             break;
         }
-    } while (loop == true);
+    } while (loop == true && --maxexpand > 0 && strlen(value) < maxsize);
 
     return value;
 }
